@@ -33,6 +33,7 @@ func runC02(c *an.Ctx) {
 	c.As(map[string]string{"R12e": "R02i"}, func() { r12e(c) })
 	c.As(map[string]string{"R12j": "R02j"}, func() { r12j(c) })
 	r02k(c)
+	c.As(map[string]string{"R12l": "R02l"}, func() { r12l(c) })
 }
 
 // transitionDos returns the `do` methods of all implementers of environment.Transition.
